@@ -41,6 +41,48 @@ CLAIMED = {
             "The base run is also compared with the reference solver.", "DESIGN.md §4 C11"),
 }
 
+CLAIMED.update({
+    "C10": ("invariant checking of every renaming entry point on generated clauses + renamings probed in the middle of generated searches",
+            "Exploration: generated clauses (repeated variables, lists incl. [], tails, all goal kinds, function terms) renamed through Rule/Unifiable/Goal::recreate_variables (once and twice, counter at 0 or a random start), get_rule and make_query; resetting ids must give back exactly the original value, lists stay well formed, same name <=> same id, ids are fresh and contiguous; during generated searches get_rule is called after every answer and its ids must be disjoint from everything the answer and the query use.",
+            "The mid-search probe restores the id counter afterwards so the observed search is undisturbed.", "DESIGN.md §4 C10"),
+    "C12": ("reference fold (checked i64 / f64) over generated operand tuples in four presentations (API literal, API variables, text function form, text infix form)",
+            "Exploration: op x 1-4 numbers from a pool with extremes x presentation x partner x side; result compared bit-exactly with the harness's left fold and the whole one-rule program with the reference solver.",
+            "Overflow and integer division by zero are discarded (outside the claim).", "DESIGN.md §4 C12"),
+    "C13": ("metamorphic testing (function on the left vs on the right) plus reference value, over generated function/partner pairs",
+            "Exploration: arithmetic and join function terms paired with 10 kinds of partner, unified in both orders inside a rule; both orders must give the same answers and equal the reference's.",
+            "Function arguments are in the functions' documented domain.", "DESIGN.md §4 C13"),
+    "C14": ("table oracle over generated operand pairs x 5 operators x 3 presentations, with per-cell coverage counters",
+            "Exploration: operands over ints (extremes, neighbours of 2^53), floats (+-0.0, 2^53, +-1e300), atoms (unicode, spaces, prefixes), non-constants; literal or through variable chains; API, named text form, infix text form; outcome must equal the comparison table and at most one answer.",
+            "The table is the documented rule (numbers numerically with int->f64 conversion, atoms by string order, anything else fails).", "DESIGN.md §4 C14"),
+    "C15": ("invariant (well-formedness) + round trip to the element sequence over generated element sequences and six list builders",
+            "Exploration: sequences of 0-5 elements incl. nested/empty lists in last position and tails, built by parse_linked_list, recreate_variables, append, include, exclude and make_linked_list; node chain, counts, tail flags, terminator and decoded elements are checked.",
+            "A lone list argument to make_linked_list is treated as unspecified and discarded.", "DESIGN.md §4 C15"),
+    "C16": ("differential testing of append against a reference function on generated argument tuples inside generated clauses",
+            "Exploration: 1-4 inputs (lists with nested/empty/list-valued last elements, bound-variable elements, tails bound through chains; atoms, numbers, complex terms) and three kinds of Out; compared with the reference append via the reference solver.",
+            "Inputs are closed lists / bound values (documented domain).", "DESIGN.md §4 C16"),
+    "C17": ("differential testing of count/include/exclude/functor/join against reference functions on generated scenarios",
+            "Exploration: generated lists (bound tails, bound-variable elements), filter patterns with variables and $_, complex terms of arity 0-4 with exact/prefix*/variable functor arguments, word/punctuation sequences; every variable is exposed in the rule head so a leaked binding shows.",
+            "Reference functions are written from the documentation.", "DESIGN.md §4 C17"),
+    "C18": ("crash oracle over grammar-generated, mutated and random strings fed to all nine parser entry points (proptest) plus a coverage-guided libFuzzer target in the thorough tier",
+            "Exploration: valid text, 1-3 character mutations of valid text and of the repository's test strings, random token soup; any panic is a violation identified by entry point and location.",
+            "Non-termination of a parser would be reported by the watchdog as inconclusive, not as a violation.", "DESIGN.md §4 C18"),
+    "C19": ("round-trip testing (render -> parse -> compare with the API-built value -> Display) over grammar-generated terms, goals and rules + exhaustive small terms and bodies",
+            "Exploration: canonical text and accepted variants (tight commas, quoted atoms, infix comparison/arithmetic, bare zero-arity, redundant parentheses) must parse to the value built through the API from the same AST, and Display must reproduce the canonical text; small terms and and/or bodies enumerated completely.",
+            "Canonical text parenthesises every nested operator goal except a conjunction inside a disjunction.", "DESIGN.md §4 C19"),
+    "C20": ("metamorphic testing: the same term text in 14 syntactic contexts",
+            "Exploration: grammar terms, signed numbers, punctuation and odd atoms placed alone, as argument, list element, infix operand, query and fact argument; all contexts must yield the same term or all must reject.",
+            "Ids are stripped before comparing (query construction renames).", "DESIGN.md §4 C20"),
+    "C21": ("differential testing of load_kb_from_file against rule-by-rule parse_rule over generated files with random legal layout",
+            "Exploration: 1-5 generated rules laid out with breaks at the documented continuation characters, indentation, blank lines and #, %, // comments; the loaded knowledge base must equal the rule-by-rule one (class 2, breaks inside parentheses, may alternatively be rejected).",
+            "A file is in the claim only if each rule is accepted by parse_rule on its own.", "DESIGN.md §4 C21"),
+    "C22": ("metamorphic testing over generated query histories (stateful: history as a vector of operations) with a reference check of the baseline",
+            "Exploration: 1-5 earlier queries in generated modes (abandoned, exhausted, re-asked, solve, solve_all, timed out, unknown predicate) followed by the query under test; answers and output must equal those of the same query run first.",
+            "Timed-out earlier queries are produced through start_query_timer(1)/cancel_timer (the state solve() leaves after a timeout); real 1 s timeouts are exercised by C23.", "DESIGN.md §4 C22"),
+    "C23": ("oracle-checked runs under the real timer thread: fast generated queries, calibrated slow queries on both sides of the 1 s limit, stray-timer rounds",
+            "Exploration: solve/solve_all results must be a prefix of the real answers, complete unless followed by the timeout message, which may only appear after >= 0.95 s; fast queries must never time out; thousands of microsecond queries must not leave a timer that stops a later query.",
+            "Timer-thread interleavings are sampled by real time, not controlled; overloaded-machine timings are counted as inconclusive discards.", "DESIGN.md §4 C23"),
+})
+
 NOT_YET = {
 }
 
